@@ -22,12 +22,13 @@ import (
 // every reaction the externally visible effects of T must equal those of O.
 
 type twin struct {
-	of      *Node
-	node    *Node
-	born    int
-	stimuli int
-	first   bool // the first reaction re-executes the restored attest: not compared
+	of         *Node
+	node       *Node
+	born       int
+	stimuli    int
+	first      bool // the first reaction re-executes the restored attest: not compared
 	stimulated bool
+	minHorizon int
 }
 
 func (l *simLedger) clone(s *Sim, n *Node) *simLedger {
@@ -60,6 +61,9 @@ func (s *Sim) maybeForkTwin(n *Node) {
 	}
 	if lagging {
 		s.stat("twin_forked_on_lagging_node", 1)
+		if n.holdUntil > s.step {
+			n.holdUntil = s.step // let the node catch up now, while the restored twin is being compared
+		}
 	} else if s.persistSeen < s.nextTwinAt {
 		return
 	}
@@ -82,6 +86,9 @@ func (s *Sim) maybeForkTwin(n *Node) {
 	}
 	in.twin = true
 	s.twin = &twin{of: n, node: t, born: s.step, first: true}
+	if lagging {
+		s.twin.minHorizon = 300 // long enough to see the node enter the next round
+	}
 	s.log.Add("  fork twin of n%d at persistence instant %d", n.id, s.persistSeen)
 	s.stat("twin_forked", 1)
 	synctest.Wait()
@@ -162,7 +169,7 @@ func (s *Sim) compareTwin() {
 		return
 	}
 	s.stat("twin_reaction_equal", 1)
-	if tw.stimuli >= s.cfg.TwinHorizon {
+	if tw.stimuli >= max(s.cfg.TwinHorizon, tw.minHorizon) {
 		s.dropTwin("horizon")
 	}
 }
